@@ -77,6 +77,12 @@ CHECKS["C14"] = dict(level="model_checking", engine="choices",
    note="Assumes the outcome depends on the schedule only through which jobs were stolen (true while closures share no mutable state; scan reported in evidence). Memory-ordering effects inside rayon itself are out of scope.",
    design="§2 C14")
 
+CHECKS["C06"] = dict(level="model_checking", engine="bfs",
+   technique="exhaustive enumeration of inputs x prefixes x programmed values on the real IDPF; explicit-state enumeration of evaluation histories sharing a cache, with an adversarial cache whose hit/miss answers are enumerated by the choice-tape explorer",
+   text="(1) For bit lengths 1..4 (thorough 5) every input, every prefix of every length, value types Poplar1IdpfValue<Field64>/<Field255>, Field64/Field255, Field255/Field64 and FieldV17 with EVERY programmed value (bits<=3), keys/ctx/nonce from tapes: the two shares add up to the programmed value on the path and to zero off it, with the public share passed through its codec; 64..4096-bit inputs along the path and all siblings. (2) Every sequence of evaluations (all prefixes, length <=4/3/2 for 2/3/4 bits; thorough one deeper) sharing HashMapCache, RingBufferCache(1..4) and an adversarial cache in which every get on a present key is a hit/miss choice (all patterns enumerated: subsumes any evicting or lossy cache) gives bit-identical results to the uncached evaluation, and every node state inserted or returned equals the from-root state.",
+   note="A cache that returns values it was never given is out of scope (the trait's contract). Keys/ctx/nonce are a tape alphabet.",
+   design="§2 C06")
+
 NOT_APPLICABLE = {}
 
 def main():
